@@ -1199,7 +1199,13 @@ func (r condition) string() string {
 	// begin default presentation
 	// handler ...
 	var raw string
-	if meth := getStringer(r.ex); meth != nil {
+	if stk, ok := stackTypeAliasConverter(r.ex); ok {
+		// Stack or Stack alias (which need not have
+		// a String method of its own)
+		raw = stk.String()
+	} else if cnd, ok := conditionTypeAliasConverter(r.ex); ok {
+		raw = cnd.String()
+	} else if meth := getStringer(r.ex); meth != nil {
 		raw = meth()
 	} else {
 		raw = primitiveStringer(r.ex)
